@@ -146,6 +146,20 @@ class Implied:
         if not defs:
             return set()
         f = self.f
+        # a definition that stores the constant 0 cannot be the live one where the variable is TRUE: `b = FALSE; if (c) b = x;`
+        falses = [d for d in defs if strip_casts(d[1]) is not None and strip_casts(d[1]).v == 0]
+        if falses and len(falses) < len(defs) and any(f.dominates(d[0], use) for d in falses):
+            live = [d for d in defs if d not in falses]
+            if not any(f.dominates(d[0], use) for d in live):
+                upos_ = f.pos(use)
+                res_ = None
+                for d in live:
+                    if f.pos(d[0]) is None or upos_ is None or upos_[0] not in f.reachable_blocks(f.pos(d[0])[0]):
+                        continue
+                    a_ = self.atoms(d[1], d[0], depth + 1) | self.fact_atoms(d[0], depth + 1)
+                    res_ = a_ if res_ is None else (res_ & a_)
+                return res_ or set()
+            defs = live
         dom = [d for d in defs if f.dominates(d[0], use)]
         if not dom:
             return set()
@@ -284,6 +298,9 @@ def run(ctx):
                   "%s hands its target to %s on every path" % (fn10, calls10[0].name),
                   "%s %s: a request for a particular target (by name, by ORC_TARGET, or the default after a by-name compile) then leaves whatever code the "
                   "program already carried in place and reports success" % (fn10, bad10), line=f10.line)
+
+    # ---- D11: a CPUID leaf is queried only where the CPU is known to implement it ------------------------
+    d11_cpuid_leaf_guard(db, rep)
 
     # ---- D3 executability ---------------------------------------------------
     want_exec = {"sse": ("orcprogram-sse", "sse_is_executable", ["ORC_TARGET_SSE_SSE2"]),
@@ -465,3 +482,67 @@ def run(ctx):
         raise AnalysisBroken("only %d feature-clearing statements found in orccpu-x86.c" % n8)
 
 
+
+
+def d11_cpuid_leaf_guard(db, rep, rule="D11-CPUID-LEAF-GUARD"):
+    """D11: Intel CPUs answer a basic CPUID leaf above their maximum with the data of the highest leaf they implement, not with
+    zeroes.  A feature bit read from leaf L (AVX2: leaf 7, ebx bit 5) is therefore meaningful only where the maximum basic
+    leaf - eax of leaf 0 - is known to be >= L.  For every query of a constant basic leaf L >= 1 in orccpu-x86.c: a must-fact
+    `V >= L` holds at the query for a variable V that carries the maximum leaf (the local filled by the leaf-0 query, or a
+    parameter that receives it from every caller), or every caller of the function establishes that fact at its call
+    (followed up to three levels)."""
+    from flow import lower_bound
+    tu = db.tu("orccpu-x86")
+    callers = db.callers()
+    fcache = {}
+
+    def facts(f):
+        if f.name not in fcache:
+            fcache[f.name] = Facts(f)
+        return fcache[f.name]
+
+    def is_query(c):
+        return c.k == "CallExpr" and c.name in ("get_cpuid", "get_cpuid_ecx") and c.args()
+
+    def tied(f, v, depth=0):
+        for c in f.calls():
+            if is_query(c) and strip_casts(c.args()[0]).v == 0:
+                idx = 1 if c.name == "get_cpuid" else 2
+                a = strip_casts(c.args()[idx]) if len(c.args()) > idx else None
+                if a is not None and a.k == "UnaryOperator" and a.op == "&" and access_path(a.c[0]) == v:
+                    return True
+        pn = [p["name"] for p in f.params]
+        if v in pn and depth < 3:
+            cl = [(g, c) for g, c in callers.get(f.name, []) if g is not f]
+            return bool(cl) and all(len(c.args()) > pn.index(v) and access_path(strip_casts(c.args()[pn.index(v)])) is not None
+                                    and tied(g, access_path(strip_casts(c.args()[pn.index(v)])), depth + 1) for g, c in cl)
+        return False
+
+    def guarded(f, node, L, depth=0):
+        conds = facts(f).conds(node)
+        names = {access_path(x) for c_ in conds if c_[0] != "switch" for x in c_[0].walk() if x.k == "DeclRefExpr" and x.get("dk") in ("local", "param")}
+        for v in names:
+            lb = lower_bound(conds, v)
+            if lb is not None and lb >= L and tied(f, v):
+                return True
+        if depth < 3:
+            cl = [(g, c) for g, c in callers.get(f.name, []) if g is not f]
+            return bool(cl) and all(guarded(g, c, L, depth + 1) for g, c in cl)
+        return False
+    n = 0
+    for f in tu.main_functions():
+        for c in f.calls():
+            if not is_query(c):
+                continue
+            L = strip_casts(c.args()[0]).v
+            if L is None or not (1 <= L < 0x80000000):
+                continue
+            n += 1
+            rep.saw(f)
+            rep.check(guarded(f, c, L), rule, where(f), "leaf:%d@%s" % (L, f.name),
+                      "leaf %d is queried only where the maximum basic leaf is known to be >= %d" % (L, L),
+                      "%s queries CPUID leaf %d without knowing that the maximum basic leaf (eax of leaf 0) is at least %d: an Intel CPU limited to a lower "
+                      "maximum answers with the data of its highest leaf, and a feature bit is read from unrelated data (AVX2 from the cache descriptors of "
+                      "leaf 2: the avx target becomes executable and the default on a CPU without AVX2)" % (f.name, L, L), line=c.line)
+    if n < 4:
+        raise AnalysisBroken("only %d constant basic CPUID leaf queries found in orccpu-x86.c" % n)
